@@ -1008,7 +1008,16 @@ def oracle_step(w: World, o: dict, res: str, before: dict, canon_before, canon_a
                 bad.append("round trip changed the model's device configurations")
         for node in w.node_objs():
             b = before["nodes"][w.nid_of[id(node)]]
-            if k == "clone":
+            if k == "clone" and o.get("allow"):
+                # an input that was not in the cloner's map is passed through (the original's object): a value that
+                # occupied several input/output positions may occupy only some of them in the clone
+                new, old = _ann_shape(w, node, None), b["shape_id"]
+                ok = len(new) == len(old) and all(
+                    (c1, st1, len(sp1)) == (c2, st2, len(sp2)) and all(
+                        p1 and set(map(tuple, p1)) <= set(map(tuple, p2)) and (d1, x1) == (d2, x2)
+                        for (p1, d1, x1), (p2, d2, x2) in zip(sp1, sp2))
+                    for (c1, st1, sp1), (c2, st2, sp2) in zip(new, old))
+            elif k == "clone":
                 ok = _ann_shape(w, node, None) == b["shape_id"]
             else:
                 ok = _ann_shape(w, node, cfg_pos) == b["shape_pos"]
